@@ -4,6 +4,7 @@ import random
 
 import core
 import session_common as sc
+import session_model as sm
 import tlc
 
 PROBES = [("probe_session", "asan", None, ["utest"]), ("probe_session", "plain", None, ["utest"])]
@@ -38,6 +39,7 @@ def exec_from_case(k, persist="mem", cfg_recv=0, cfg_send=0):
 
 
 def run(ctx):
+    sm.check_state_machine(ctx)      # SessionStates.tla: the whole state machine; every recorded call is labelled against it
     r = tlc.check("Logon.tla", "MC_Logon_ideal.cfg", workers=4, timeout=600)
     if not r["ok"]:
         raise core.Infra("ideal logon design rejected by the C23 monitor: %s" % r["violated"])
